@@ -157,8 +157,12 @@ def run_perc(case):
     G = nx.Graph()
     G.add_nodes_from(case["V"])
     G.add_edges_from([tuple(e) for e in case["E"]])
+    for i, (x, y) in enumerate(G.edges()):
+        G.edges[x, y]["topology"] = "t%d" % (i % 2)       # annotated as gcmpy's own networks are
+        G.edges[x, y]["motif_ids"] = i
     es = [[int(x), int(y)] for x, y in G.edges()]
-    before = (sorted(G.nodes()), sorted(map(sorted, G.edges())))
+    snap = lambda: (sorted(G.nodes(data=True), key=lambda z: z[0]), sorted((min(x, y), max(x, y), sorted(d.items())) for x, y, d in G.edges(data=True)))
+    before = snap()
     N = G.order()
     a, b = case["a"], case["b"]
     phi = a / b
@@ -188,7 +192,7 @@ def run_perc(case):
         tr["undecided"] = str(ex)
     except Exception as ex:
         tr["raised"] = "%s: %s" % (type(ex).__name__, str(ex)[:70])
-    tr["input_same"] = (sorted(G.nodes()), sorted(map(sorted, G.edges()))) == before
+    tr["input_same"] = snap() == before
     return tr
 
 
